@@ -12,6 +12,7 @@ import (
 	"os"
 	"strings"
 
+	"github.com/LiskHQ/lisk-engine/pkg/blockchain"
 	"github.com/LiskHQ/lisk-engine/pkg/codec"
 
 	"verifharness/internal/cx"
@@ -490,6 +491,23 @@ func genPrim(o *hx.Out, rng *hx.Rng, exh, nrand int, big bool) {
 			rt(opBytes, 1, nil, []string{hex.EncodeToString(bytes.Repeat([]byte{0x5a}, n))})
 		}
 	}
+	{ // 2^21 also for strings, packed arrays and a nested message length prefix
+		n := 1 << 21
+		for _, d := range []int{-1, 0, 1} {
+			rt(opString, 1, nil, []string{hex.EncodeToString(bytes.Repeat([]byte{'s'}, n+d))})
+			if d != 0 { // 2M-element packed arrays: the exact boundary only (large records)
+				continue
+			}
+			bools := make([]string, n+d)
+			ones := make([]string, n+d)
+			for i := range bools {
+				bools[i], ones[i] = "1", "5"
+			}
+			rt(opBools, 1, bools, nil)
+			rt(opUInts, 1, ones, nil)
+		}
+	}
+	nestedBoundary(o)
 	for _, e := range []uint{7, 14} {
 		n := 1 << e
 		rt(opString, 1, nil, []string{hex.EncodeToString(bytes.Repeat([]byte{'q'}, n))})
@@ -622,4 +640,44 @@ func readBack(op, fn int, w writeRec) bool {
 		}
 	}
 	return true
+}
+
+// nestedBoundary: a Block whose nested header encoding is exactly 2^7, 2^14, 2^21 (+-1) bytes: the length prefix written by
+// WriteEncodable sits on the varintShortestSize thresholds.  Record "nb": the real Decode accepts the real Encode, the
+// re-encoding is identical and the nested size is the intended one.
+type nbRec struct {
+	K      string `json:"k"`
+	Target int    `json:"target"`
+	Nested int    `json:"nested"`
+	OK     bool   `json:"ok"`
+	Why    string `json:"why,omitempty"`
+}
+
+func nestedBoundary(o *hx.Out) {
+	for _, e := range []uint{7, 14, 21} {
+		for _, d := range []int{-1, 0, 1} {
+			target := (1 << e) + d
+			h := &blockchain.BlockHeader{Version: 2, AggregateCommit: &blockchain.AggregateCommit{}, Signature: []byte{}}
+			for n := target; n >= 0; n-- { // largest signature that does not exceed the target, then exact fit or skip
+				h.Signature = make([]byte, n)
+				if l := len(h.Encode()); l <= target {
+					break
+				}
+			}
+			rec := nbRec{K: "nb", Target: target, Nested: len(h.Encode())}
+			b := &blockchain.Block{Header: h, Transactions: []*blockchain.Transaction{}, Assets: []*blockchain.BlockAsset{}}
+			enc := b.Encode()
+			b2 := &blockchain.Block{}
+			if err := b2.Decode(enc); err != nil {
+				rec.Why = "Decode rejects Encode: " + err.Error()
+			} else if !bytes.Equal(b2.Encode(), enc) {
+				rec.Why = "re-encoding differs"
+			} else if err := (&blockchain.Block{}).DecodeStrict(enc); err != nil {
+				rec.Why = "DecodeStrict rejects Encode: " + err.Error()
+			} else {
+				rec.OK = true
+			}
+			o.Put(rec)
+		}
+	}
 }
